@@ -138,4 +138,197 @@ theorem toDays_eq_dayNumber (y m d : Int) (hy : InWin y) (hm1 : 1 ≤ m) (hm12 :
   · exact toDays_month11 y d hy
   · exact toDays_month12 y d hy
 
+theorem yearStart_succ (y : Int) : yearStart (y + 1) = yearStart y + diy y := by
+  obtain ⟨q, c, k, s, rfl, hc0, hc3, hk0, hk24, hs0, hs3⟩ := year_decomp y
+  unfold yearStart diy isLeap
+  have hc : c = 0 ∨ c = 1 ∨ c = 2 ∨ c = 3 := by omega
+  have hs : s = 0 ∨ s = 1 ∨ s = 2 ∨ s = 3 := by omega
+  rcases hc with rfl | rfl | rfl | rfl <;> rcases hs with rfl | rfl | rfl | rfl <;> simp <;> split <;> omega
+
+theorem dayNumber_anchor : dayNumber 1970 1 1 = 0 := by decide
+
+theorem monthStart_succ (y m : Int) (h1 : 1 ≤ m) (h2 : m < 12) :
+    monthStart y (m + 1) = monthStart y m + dim y m := by
+  have hm : m = 1 ∨ m = 2 ∨ m = 3 ∨ m = 4 ∨ m = 5 ∨ m = 6 ∨ m = 7 ∨ m = 8 ∨ m = 9 ∨ m = 10 ∨ m = 11 := by omega
+  rcases hm with rfl | rfl | rfl | rfl | rfl | rfl | rfl | rfl | rfl | rfl | rfl <;>
+    cases hl : isLeap y <;> simp [monthStart, dim, hl]
+
+theorem monthStart_dec (y : Int) : monthStart y 12 + 31 = diy y := by
+  cases hl : isLeap y <;> simp [monthStart, diy, hl]
+
+theorem dim_dec (y : Int) : dim y 12 = 31 := by simp [dim]
+theorem monthStart_jan (y : Int) : monthStart y 1 = 0 := by simp [monthStart]
+
+theorem dayNumber_succ (y m d : Int) (h : Valid y m d) :
+    dayNumber (nextDay y m d).1 (nextDay y m d).2.1 (nextDay y m d).2.2 = dayNumber y m d + 1 := by
+  obtain ⟨hm1, hm12, hd1, hdm⟩ := h
+  unfold nextDay
+  split
+  · show dayNumber y m (d + 1) = _
+    unfold dayNumber; omega
+  · split
+    · rename_i h1 h2
+      show dayNumber y (m + 1) 1 = _
+      have := monthStart_succ y m hm1 h2
+      unfold dayNumber; omega
+    · rename_i h1 h2
+      have hm : m = 12 := by omega
+      subst hm
+      show dayNumber (y + 1) 1 1 = _
+      have := yearStart_succ y
+      have := monthStart_dec y
+      have := dim_dec y
+      have := monthStart_jan (y+1)
+      unfold dayNumber; omega
+
+theorem nextDay_valid (y m d : Int) (h : Valid y m d) :
+    Valid (nextDay y m d).1 (nextDay y m d).2.1 (nextDay y m d).2.2 := by
+  obtain ⟨hm1, hm12, hd1, hdm⟩ := h
+  have dim_pos : ∀ y m, 28 ≤ dim y m := by
+    intro y m; unfold dim; (repeat (any_goals split)) <;> omega
+  unfold nextDay
+  split
+  · show Valid y m (d + 1)
+    exact ⟨hm1, hm12, by omega, by omega⟩
+  · split
+    · show Valid y (m + 1) 1
+      exact ⟨by omega, by omega, by omega, by have := dim_pos y (m+1); omega⟩
+    · show Valid (y + 1) 1 1
+      exact ⟨by omega, by omega, by omega, by have := dim_pos (y+1) 1; omega⟩
+
+theorem or3_eq (x : Int) (hx : 0 ≤ x) : or3 x = 4 * (x / 4) + 3 := by
+  unfold or3
+  obtain ⟨n, rfl⟩ := Int.eq_ofNat_of_zero_le hx
+  simp only [Int.toNat_natCast]
+  have h : n ||| 3 = 4 * (n / 4) + 3 := by
+    have h1 : n = (n / 4) <<< 2 + n % 4 := by
+      rw [Nat.shiftLeft_eq]; omega
+    have h2 : n % 4 < 2 ^ 2 := by omega
+    conv => lhs; rw [h1]
+    rw [Nat.shiftLeft_add_eq_or_of_lt h2, Nat.or_assoc]
+    have h3 : n % 4 ||| 3 = 3 := by
+      have : n % 4 = 0 ∨ n % 4 = 1 ∨ n % 4 = 2 ∨ n % 4 = 3 := by omega
+      rcases this with h | h | h | h <;> rw [h] <;> decide
+    rw [h3, ← Nat.shiftLeft_add_eq_or_of_lt (by decide : 3 < 2 ^ 2), Nat.shiftLeft_eq]
+    omega
+  rw [h]; omega
+
+theorem mulshift_year (x : Int) (h0 : 0 ≤ x) (h1 : x < 146100) :
+    2939745 * x / 4294967296 = x / 1461 := by omega
+theorem mulshift_rem (x : Int) (h0 : 0 ≤ x) (h1 : x < 146100) :
+    2939745 * x % 4294967296 = 2939745 * (x % 1461) + 149 * (x / 1461) := by omega
+theorem mulshift_doy (x : Int) (h0 : 0 ≤ x) (h1 : x < 146100) :
+    2939745 * x % 4294967296 / 2939745 / 4 = x % 1461 / 4 := by
+  rw [mulshift_rem x h0 h1]; omega
+
+theorem monthday_table : ∀ k : Fin 366,
+    let doy : Int := k.val
+    let n3 := 2141 * doy + 197913
+    let M := n3 / 65536
+    let D := n3 % 65536 / 2141
+    3 ≤ M ∧ M ≤ 14 ∧ 0 ≤ D ∧ D ≤ 30 ∧ Int.tdiv (979 * M - 2919) 32 + D = doy ∧ (doy ≥ 306 ↔ M ≥ 13) := by
+  decide +kernel
+
+theorem monthday (doy : Int) (h0 : 0 ≤ doy) (h1 : doy ≤ 365) :
+    let n3 := 2141 * doy + 197913
+    let M := n3 / 65536
+    let D := n3 % 65536 / 2141
+    3 ≤ M ∧ M ≤ 14 ∧ 0 ≤ D ∧ D ≤ 30 ∧ Int.tdiv (979 * M - 2919) 32 + D = doy ∧ (doy ≥ 306 ↔ M ≥ 13) := by
+  have := monthday_table ⟨doy.toNat, by omega⟩
+  have e : ((doy.toNat : Nat) : Int) = doy := by omega
+  simp only [e] at this
+  exact this
+
+theorem fromDays_core (n rd C R z r4 yoc e doy f M D : Int)
+    (hn : -300000000 ≤ n ∧ n ≤ 300000000)
+    (hrd : rd = n + 719468 + 146097 * 3670)
+    (hN1 : 4 * rd + 3 = 146097 * C + R) (hR0 : 0 ≤ R) (hR1 : R < 146097)
+    (hz : R = 4 * z + r4) (hr40 : 0 ≤ r4) (hr41 : r4 ≤ 3)
+    (hyoc : 4 * z + 3 = 1461 * yoc + e) (he0 : 0 ≤ e) (he1 : e < 1461)
+    (hdoy : e = 4 * doy + f) (hf0 : 0 ≤ f) (hf1 : f ≤ 3)
+    (hM3 : 3 ≤ M) (hM14 : M ≤ 14) (hD0 : 0 ≤ D) (hD30 : D ≤ 30)
+    (hmd : Int.tdiv (979 * M - 2919) 32 + D = doy) (hj : doy ≥ 306 ↔ M ≥ 13) :
+    let j : Int := if doy ≥ 306 then 1 else 0
+    epochDaysFromGregorianDate (100 * C + yoc + j - 400 * 3670) (M - 12 * j) (D + 1) = n ∧
+      1 ≤ M - 12 * j ∧ M - 12 * j ≤ 12 ∧ InWin (100 * C + yoc + j - 400 * 3670) := by
+  have hyoc0 : 0 ≤ yoc := by omega
+  have hyoc1 : yoc ≤ 99 := by omega
+  unfold epochDaysFromGregorianDate rataDieFirstEquations InWin
+  simp only [SHIFT_CONSTANT, DAYS_IN_A_400Y_CYCLE, EPOCH_COMPUTATIONAL_RATA_DIE]
+  generalize hms : Int.tdiv (979 * M - 2919) 32 = ms at *
+  obtain ⟨c4, cr, hCd, hcr0, hcr3⟩ : ∃ c4 cr : Int, C = 4 * c4 + cr ∧ 0 ≤ cr ∧ cr ≤ 3 := ⟨C / 4, C % 4, by omega⟩
+  obtain ⟨y4, yr, hYd, hyr0, hyr3⟩ : ∃ y4 yr : Int, yoc = 4 * y4 + yr ∧ 0 ≤ yr ∧ yr ≤ 3 := ⟨yoc / 4, yoc % 4, by omega⟩
+  subst hCd hYd
+  have hcr : cr = 0 ∨ cr = 1 ∨ cr = 2 ∨ cr = 3 := by omega
+  have hyr : yr = 0 ∨ yr = 1 ∨ yr = 2 ∨ yr = 3 := by omega
+  by_cases hd : doy ≥ 306
+  · have hM13 : M ≥ 13 := hj.mp hd
+    have e1 : (if M - 12 * 1 ≤ 2 then (1:Int) else 0) = 1 := by rw [if_pos]; omega
+    simp only [hd, if_true, e1]
+    have e2 : M - 12 * 1 + 12 * 1 = M := by omega
+    rw [e2, hms]
+    refine ⟨?_, by omega, by omega, by omega, by omega⟩
+    rcases hcr with rfl | rfl | rfl | rfl <;> rcases hyr with rfl | rfl | rfl | rfl <;> omega
+  · have hM12 : ¬ M ≥ 13 := fun h => hd (hj.mpr h)
+    have e1 : (if M - 12 * 0 ≤ 2 then (1:Int) else 0) = 0 := by rw [if_neg]; omega
+    simp only [hd, if_false, e1]
+    have e2 : M - 12 * 0 + 12 * 0 = M := by omega
+    rw [e2, hms]
+    refine ⟨?_, by omega, by omega, by omega, by omega⟩
+    rcases hcr with rfl | rfl | rfl | rfl <;> rcases hyr with rfl | rfl | rfl | rfl <;> omega
+
+/-- Window of day numbers on which the reverse kernel is exact (⊃ Temporal's ±(10^8+1) days). -/
+def InDayWin (n : Int) : Prop := -300000000 ≤ n ∧ n ≤ 300000000
+
+/-- Explicit (division-only) form of the coded days → (y, m, d) kernel. -/
+def ymdExplicit (n : Int) : Int × Int × Int :=
+  let rd := n + 719468 + 146097 * 3670
+  let C := (4 * rd + 3) / 146097
+  let R := (4 * rd + 3) % 146097
+  let z := R / 4
+  let yoc := (4 * z + 3) / 1461
+  let doy := (4 * z + 3) % 1461 / 4
+  let M := (2141 * doy + 197913) / 65536
+  let D := (2141 * doy + 197913) % 65536 / 2141
+  let j : Int := if doy ≥ 306 then 1 else 0
+  (100 * C + yoc + j - 400 * 3670, M - 12 * j, D + 1)
+
+theorem ymdFromEpochDays_eq (n : Int) : ymdFromEpochDays n = ymdExplicit n := by
+  unfold ymdFromEpochDays rataDieForEpochDays gregorianYmd thirdEquations secondEquations firstEquations nOne
+    ymdExplicit
+  simp only [SHIFT_CONSTANT, DAYS_IN_A_400Y_CYCLE, EPOCH_COMPUTATIONAL_RATA_DIE, TWO_POWER_THIRTY_TWO, TWO_POWER_SIXTEEN]
+  have hR0 : 0 ≤ (4 * (n + 719468 + 146097 * 3670) + 3) % 146097 := by omega
+  have hx0 : 0 ≤ 4 * ((4 * (n + 719468 + 146097 * 3670) + 3) % 146097 / 4) + 3 := by omega
+  have hx1 : 4 * ((4 * (n + 719468 + 146097 * 3670) + 3) % 146097 / 4) + 3 < 146100 := by omega
+  simp only [or3_eq _ hR0, mulshift_year _ hx0 hx1, mulshift_doy _ hx0 hx1]
+
+/-- Round trip days → (y, m, d) → days through the two coded kernels, with the field ranges. -/
+theorem toDays_fromDays (n : Int) (hn : InDayWin n) :
+    ∃ y m d, ymdFromEpochDays n = (y, m, d) ∧ epochDaysFromGregorianDate y m d = n ∧
+      1 ≤ m ∧ m ≤ 12 ∧ InWin y ∧ 1 ≤ d ∧ d ≤ 31 := by
+  rw [ymdFromEpochDays_eq]
+  unfold ymdExplicit
+  simp only
+  unfold InDayWin at hn
+  generalize hrd : n + 719468 + 146097 * 3670 = rd at *
+  have hrd0 : 0 ≤ rd := by omega
+  generalize hC : (4 * rd + 3) / 146097 = C at *
+  generalize hR : (4 * rd + 3) % 146097 = R at *
+  generalize hz : R / 4 = z at *
+  generalize hyoc : (4 * z + 3) / 1461 = yoc at *
+  generalize he : (4 * z + 3) % 1461 = e at *
+  generalize hdoy : e / 4 = doy at *
+  have hdoy0 : 0 ≤ doy := by omega
+  have hdoy1 : doy ≤ 365 := by omega
+  have hmd := monthday doy hdoy0 hdoy1
+  simp only at hmd
+  obtain ⟨hM3, hM14, hD0, hD30, hmd1, hj⟩ := hmd
+  have core := fromDays_core n rd C R z (R % 4) yoc e doy (e % 4)
+    ((2141 * doy + 197913) / 65536) ((2141 * doy + 197913) % 65536 / 2141)
+    hn hrd.symm (by omega) (by omega) (by omega) (by omega) (by omega) (by omega) (by omega) (by omega) (by omega)
+    (by omega) (by omega) (by omega) hM3 hM14 hD0 hD30 hmd1 hj
+  simp only at core
+  obtain ⟨c1, c2, c3, c4⟩ := core
+  exact ⟨_, _, _, rfl, c1, c2, c3, c4, by omega, by omega⟩
+
 end TemporalModel
